@@ -182,10 +182,11 @@ def translate():
         raise ShapeError("codegen removes symbols again (the model has no removal)")
     mi = norm(between(cg, r"Token::MacroInvocation \{ id: name, args, \.\. \} => \{", r"Token::ProgramCounterDefinition \{", "macro invocation arm"))
     need(r"let macro_scope = Identifier::new\(format!\(\"\$macro_\{\}\", self\.next_macro_scope_id\)\); self\.next_macro_scope_id \+= 1; "
-         r"self\.with_scope\(&macro_scope, None, \|s\| \{ for \(idx, arg_name\) in def\.args\.iter\(\)\.enumerate\(\) \{ "
-         r"let \(expr, _\) = args\.get\(idx\)\.unwrap\(\); let value = s \.evaluate_expression\(expr, true\)\? \.unwrap_or\(SymbolData::Placeholder\); "
+         r"let mut values = vec!\[\]; for \(expr, _\) in args\.iter\(\) \{ values\.push\( self\.evaluate_expression\(expr, true\)\? "
+         r"\.unwrap_or\(SymbolData::Placeholder\), \); \} "
+         r"self\.with_scope\(&macro_scope, None, \|s\| \{ for \(arg_name, value\) in def\.args\.iter\(\)\.zip\(values\) \{ "
          r"s\.add_symbol\( &arg_name\.data, s\.symbol\(arg_name\.span, value, SymbolType::MacroArgument\), \)\?; \} "
-         r"s\.emit_tokens\(&def\.block\)\?;", mi, "macro invocation arm")
+         r"s\.emit_tokens\(&def\.block\)\?;", mi, "macro invocation arm (arguments evaluated in the invocation's scope)")
     al = norm(between(cg, r"Token::Align \{ value, \.\. \} => \{", r"Token::Assert \{", "align arm"))
     m = need(r"^if let Some\(pc\) = self\.try_current_target_pc\(\) \{ if let Some\(align\) = self\.evaluate_expression_as_i64\(value, true\)\? \{ "
              r"if align <= 0 \{ return Err\(Diagnostic::error\(\) \.with_message\(format!\( \"cannot align to \{\}: the alignment must be greater than zero\", align \)\) "
@@ -205,6 +206,12 @@ def translate():
          r"self\.with_dummy_segment\(\|s\| s\.emit_tokens\(&if_\.inner\)\)\?; \} "
          r"if let Some\(e\) = else_ \{ if !emit_if \{ self\.emit_tokens\(&e\.inner\)\?; \}", iff, "if arm")
 
+    # ---- `.segment "x" { .. }`: the previous segment is selected again whether or not the block reported an error
+    sg = norm(between(cg, r"Token::Segment \{ id, block, \.\. \} => \{", r"Token::Test \{", "segment arm"))
+    need(r"match block \{ Some\(block\) => \{ let old_segment = std::mem::replace\(&mut self\.current_segment, Some\(segment_id\)\); "
+         r"let result = self\.emit_tokens\(&block\.inner\); self\.current_segment = old_segment; result\?; \} "
+         r"None => \{ self\.current_segment = Some\(segment_id\); \} \}", sg, "segment arm")
+
     # ---- instruction arm: what a branch that is too far leaves behind before the error
     ins = norm(between(cg, r"Token::Instruction\(i\) => \{", r"Token::Label \{", "instruction arm"))
     m = re.search(r"\} else \{ (?:self\.emit\(full_span, &\[([0-9, ]*)\]\)\?; )?return Err\(Diagnostic::error\(\) \.with_message\(format!\( \"branch too far", ins)
@@ -217,7 +224,7 @@ def translate():
 
     lines = ["(* GENERATED by translate/t_codegen.py from mos-core/src/codegen/{mod,segment}.rs. DO NOT EDIT. *)",
              "From Coq Require Import List NArith ZArith.", "Import ListNotations.", "Open Scope Z_scope.",
-             "Definition branch_too_far_bytes : list N := [%s]%%N." % "; ".join(str(x) for x in too_far)]
+             "Definition too_far_emits : list N := [%s]%%N." % "; ".join(str(x) for x in too_far)]
     for k in ["segment_default_initial_pc", "segment_default_target_address", "emit_start_limit", "emit_end_limit", "default_pc",
               "loop_first_index", "align_padding_cap", "max_iterations"]:
         lines.append("Definition %s : Z := %d." % (k, out[k]))
